@@ -998,9 +998,19 @@ def compile_comprehension(compiler, expr, root, parts, final):
             if is_for:
                 return f(parts)
             fname = compiler.get_anon_var()
+            # As in a real comprehension, the first iterable is evaluated
+            # in the enclosing scope. The function gets it as an argument.
+            first_iter = first_iter_arg = None
+            if parts[0][0] in ("for", "afor"):
+                first_iter = parts[0][1][1]
+                first_iter_arg = compiler.get_anon_var()
+                parts[0] = Tag(parts[0][0], [
+                    parts[0][1][0],
+                    Result(expr=asty.Name(
+                        expr, id=first_iter_arg, ctx=ast.Load()))])
             # Define the generator function.
             stmts = []
-            ret = Result()
+            ret = Result() if first_iter is None else Result(stmts=first_iter.stmts)
             assignment_names = scope.finalize()
             if scope.exposing_assignments and assignment_names:
                 # expose inner assignments to outer scope
@@ -1044,7 +1054,8 @@ def compile_comprehension(compiler, expr, root, parts, final):
                 expr,
                 name=fname,
                 args=ast.arguments(
-                    args=[],
+                    args=[] if first_iter is None else [
+                        asty.arg(expr, arg=first_iter_arg, annotation=None)],
                     vararg=None,
                     kwarg=None,
                     posonlyargs=[],
@@ -1067,8 +1078,7 @@ def compile_comprehension(compiler, expr, root, parts, final):
                 v1, v2 = f"{v1}: {v2}", f"{v1}, {v2}"
             else:
                 v1 = v2 = compiler.get_anon_var()
-            return ret + Result(expr =
-                asty.parse(expr,
+            value = (asty.parse(expr,
                     f"{fname}()"
                     if node_class is asty.GeneratorExp else
                     "{}{} {} for {} in {}(){}".format(
@@ -1079,6 +1089,12 @@ def compile_comprehension(compiler, expr, root, parts, final):
                         fname,
                         brackets[1]))
                 .body[0].value)
+            if first_iter is not None:
+                (value
+                    if node_class is asty.GeneratorExp
+                    else value.generators[0].iter
+                ).args.append(first_iter.force_expr)
+            return ret + Result(expr = value)
 
         # We can produce a real comprehension.
         generators = []
